@@ -1,7 +1,132 @@
-(* C06 property theorems only: each closed by `exact <lemma>` with Print Assumptions beneath. *)
-From Coq Require Import ZArith List Bool.
-Require Import MV.Lib.Base MV.C06.Base MV.C06.Gen MV.C06.Model MV.C06.Proofs.
+(* C06 property theorems only: each closed by `exact <lemma>` with Print Assumptions beneath.
+   Vocabulary (Model.v / Proofs*.v): a world = heap of buffers + list of objects (meshes, caller arrays), each a list of
+   cell ids; wf = in every object the vertex ids use pairwise distinct allocated buffers; ok_hist = producers outside the
+   anchors store no vector under two ids; obj_coords w i = coordinates of object i; allocated m c = buffer c exists in m. *)
+From Coq Require Import ZArith List Bool PArith.
+Import ListNotations.
+Require Import MV.Lib.Base MV.C06.Base MV.C06.Gen MV.C06.Model MV.C06.Run MV.C06.Proofs.
 
-Theorem C06_ring_no_shared_vector : forall N nc open, Forall (fun s => s = SFresh) (ring_pattern N nc open).
-Proof. exact ring_all_fresh. Qed.
-Print Assumptions C06_ring_no_shared_vector.
+(* no two vertex ids of any object ever share a buffer: invariant of ALL histories of copy / merge / from_arrays / ring /
+   transforms / edits (and of outside producers that respect it) *)
+Theorem C06_no_shared_buffer_invariant :
+  forall (T : Type) (O : ops T) (l : list (op (T:=T))) (w w' : world (T:=T)),
+    wf w -> ok_hist O w l -> run O w l = Some w' -> wf w'.
+Proof. exact (fun T O => invariant_all_histories O). Qed.
+Print Assumptions C06_no_shared_buffer_invariant.
+
+(* ring: every vertex append stores a new vector (rings.py as regenerated); 1 + N*n_cover (+1 when open) vertices *)
+Theorem C06_ring_stores_every_vertex_once :
+  forall N nc open,
+    Forall (fun s => s = SFresh) (ring_pattern N nc open)
+    /\ ((1 <= N * nc)%Z -> Z.of_nat (length (ring_pattern N nc open)) = (N * nc + 1 + (if open then 1 else 0))%Z).
+Proof. exact ring_structure. Qed.
+Print Assumptions C06_ring_stores_every_vertex_once.
+
+(* copy: equal to its source, on buffers that did not exist before (so shared with nobody), nothing else touched *)
+Theorem C06_copy :
+  forall (T : Type) (O : ops T) (w w' : world (T:=T)) i attr,
+    wf w -> step O w (OCopy i attr) = Some w' ->
+    exists so co, get_mesh w i = Some so /\ wobjs w' = wobjs w ++ [co]
+      /\ coords O (mheap (wmem w')) co = coords O (mheap (wmem w)) so
+      /\ oedges co = oedges so /\ ofaces co = ofaces so /\ occells co = occells so /\ okind co = okind so
+      /\ NoDup (ocells co) /\ (forall c, In c (ocells co) -> ~ allocated (wmem w) c)
+      /\ frame O (wmem w) (wmem w').
+Proof. exact (fun T O => copy_spec O). Qed.
+Print Assumptions C06_copy.
+
+(* merge: vertices concatenated, elements of input k shifted by the running vertex count, class = largest
+   dimensionality, on fresh pairwise distinct buffers - also when one mesh occurs twice in the list *)
+Theorem C06_merge :
+  forall (T : Type) (O : ops T) (w w' : world (T:=T)) ms,
+    wf w -> step O w (OMerge ms) = Some w' ->
+    exists ins mo, get_meshes w ms = Some ins /\ wobjs w' = wobjs w ++ [mo]
+      /\ coords O (mheap (wmem w')) mo = flat_map (coords O (mheap (wmem w))) ins
+      /\ oedges mo = shifted sel_edges 0 ins /\ ofaces mo = shifted sel_faces 0 ins /\ occells mo = shifted sel_cells 0 ins
+      /\ okind mo = max_dim ins
+      /\ NoDup (ocells mo) /\ (forall c, In c (ocells mo) -> ~ allocated (wmem w) c)
+      /\ frame O (wmem w) (wmem w').
+Proof. exact (fun T O => merge_spec O). Qed.
+Print Assumptions C06_merge.
+
+(* from_arrays: the mesh holds the array's values on buffers of its own *)
+Theorem C06_from_arrays :
+  forall (T : Type) (O : ops T) (w w' : world (T:=T)) a e f c k,
+    wf w -> step O w (OFromArrays a e f c k) = Some w' ->
+    exists ao mo, nth_error (wobjs w) a = Some ao /\ wobjs w' = wobjs w ++ [mo]
+      /\ coords O (mheap (wmem w')) mo = coords O (mheap (wmem w)) ao
+      /\ NoDup (ocells mo) /\ (forall c, In c (ocells mo) -> ~ allocated (wmem w) c)
+      /\ frame O (wmem w) (wmem w').
+Proof. exact (fun T O => from_arrays_spec O). Qed.
+Print Assumptions C06_from_arrays.
+
+(* frame over histories: whatever is written later through the new object (copy, merge result, mesh from an array)
+   never changes an older object, nor the reverse *)
+Theorem C06_new_object_isolated :
+  forall (T : Type) (O : ops T) (w w1 w2 : world (T:=T)) l i new,
+    wf w -> wf w1 -> (i < length (wobjs w))%nat -> wobjs w1 = wobjs w ++ [new] -> frame O (wmem w) (wmem w1) ->
+    (forall c, In c (ocells new) -> ~ allocated (wmem w) c) ->
+    ok_hist O w1 l -> run O w1 l = Some w2 ->
+    (Forall (targets_only (length (wobjs w))) l -> obj_coords O w2 i = obj_coords O w1 i)
+    /\ (Forall (targets_only i) l -> obj_coords O w2 (length (wobjs w)) = obj_coords O w1 (length (wobjs w))).
+Proof. exact (fun T O => fresh_object_isolated O). Qed.
+Print Assumptions C06_new_object_isolated.
+
+(* general form: buffers disjoint from object k's are untouched by every history that writes only through object k *)
+Theorem C06_isolation :
+  forall (T : Type) (O : ops T) (l : list (op (T:=T))) (w w' : world (T:=T)) (S : cell -> Prop) k,
+    wf w -> ok_hist O w l -> (k < length (wobjs w))%nat ->
+    (forall c, S c -> allocated (wmem w) c) ->
+    (forall c, In c (obj_cells w k) -> ~ S c) ->
+    Forall (targets_only k) l ->
+    run O w l = Some w' ->
+    (forall c, S c -> rd O (mheap (wmem w')) c = rd O (mheap (wmem w)) c)
+    /\ (forall c, In c (obj_cells w' k) -> ~ S c).
+Proof. exact (fun T O => isolation O). Qed.
+Print Assumptions C06_isolation.
+
+(* every transform (translate, rotate, scale, scale_xyz, normalize, fit_into_unit_cube, translate_to_origin, flatten)
+   maps every vertex of its target exactly once by the requested map and leaves every other buffer and object alone *)
+Theorem C06_transform_once :
+  forall (T : Type) (O : ops T), field_laws O ->
+  forall (w w' : world (T:=T)) o,
+    wf w -> step O w o = Some w' ->
+    forall i g, requested O w o = Some (i, g) ->
+    obj_coords O w' i = map g (obj_coords O w i)
+    /\ (forall c, allocated (wmem w) c -> ~ In c (obj_cells w i) -> rd O (mheap (wmem w')) c = rd O (mheap (wmem w)) c)
+    /\ (forall j, j <> i -> obj_cells w' j = obj_cells w j).
+Proof. exact (fun T O F => every_vertex_once_by_the_requested_map O F). Qed.
+Print Assumptions C06_transform_once.
+
+(* translate(t);translate(-t), scale(s);scale(1/s) (s<>0), rotate(R);rotate(R^T) (R^T R = I) restore the coordinates *)
+Theorem C06_inverses :
+  forall (T : Type) (O : ops T), field_laws O ->
+  forall (w w1 w2 : world (T:=T)) i, wf w ->
+  (forall t, step O w (OTranslate i (PVal t)) = Some w1 -> step O w1 (OTranslate i (PVal (vopp O t))) = Some w2 ->
+             obj_coords O w2 i = obj_coords O w i)
+  /\ (forall s orig, s <> z0 O -> step O w (OScale i s orig) = Some w1 ->
+             step O w1 (OScale i (div O (o1 O) s) orig) = Some w2 -> obj_coords O w2 i = obj_coords O w i)
+  /\ (forall R orig, mmul O (mtrans R) R = mid O -> step O w (ORotate i R orig) = Some w1 ->
+             step O w1 (ORotate i (mtrans R) orig) = Some w2 -> obj_coords O w2 i = obj_coords O w i).
+Proof. exact (fun T O => inverses_restore O). Qed.
+Print Assumptions C06_inverses.
+
+(* normalize: box centred at 0 with largest extent 2, or anchored at 0 with largest extent 1; a step exists as soon as the
+   mesh has a vertex and its largest extent is positive (otherwise the model returns the error value None) *)
+Theorem C06_normalize_box :
+  forall (T : Type) (O : ops T), field_laws O -> order_laws O ->
+  forall (w w' : world (T:=T)) i, wf w ->
+  (step O w (ONormalize i true) = Some w' ->
+     exists lo hi, bbox O (obj_coords O w' i) = Some (lo, hi)
+       /\ aabb_center O lo hi = vzero O /\ vmax3 O (aabb_span O lo hi) = add O (o1 O) (o1 O))
+  /\ (step O w (ONormalize i false) = Some w' ->
+     exists lo hi, bbox O (obj_coords O w' i) = Some (lo, hi)
+       /\ lo = vzero O /\ vmax3 O (aabb_span O lo hi) = o1 O)
+  /\ (forall so lo hi c, get_mesh w i = Some so -> bbox O (coords O (mheap (wmem w)) so) = Some (lo, hi) ->
+        leb O (vmax3 O (aabb_span O lo hi)) (z0 O) = false -> exists w'', step O w (ONormalize i c) = Some w'').
+Proof. exact (fun T O => normalize_box O). Qed.
+Print Assumptions C06_normalize_box.
+
+(* the instance the correspondence batches execute (canonical rationals) satisfies all the laws assumed above *)
+Theorem C06_rationals_satisfy_the_laws : field_laws QcO /\ order_laws QcO.
+Proof. exact rationals_satisfy_the_laws. Qed.
+Print Assumptions C06_rationals_satisfy_the_laws.
